@@ -215,7 +215,18 @@ func (sf *schemafier) schemafy(attr *expr.AttributeExpr, noref ...bool) *openapi
 		}
 	case expr.UserType:
 		if expr.IsAlias(t) {
-			return sf.schemafy(t.Attribute())
+			// The schema is the one of the aliased type; the validations
+			// given on the attribute itself hold on top of the ones of
+			// the alias type, as they do in the generated code.
+			if attr.Validation == nil {
+				return sf.schemafy(t.Attribute())
+			}
+			aliased := *t.Attribute()
+			aliased.Validation = attr.Validation.Dup()
+			if v := t.Attribute().Validation; v != nil {
+				aliased.Validation.Merge(v)
+			}
+			return sf.schemafy(&aliased)
 		}
 		h := sf.hashAttribute(attr, fnv.New64())
 
